@@ -16,7 +16,10 @@ class Family:
     def __init__(self, rng, k=3, nslots=7, name="fam"):
         self.k = k
         self.slots = []     # per function: list of ("bind", var, tags) | ("call",) | ("raise",)
-        src = ["from ptera import tag", "FUNS = []", "class Boom(Exception):\n    pass", ""]
+        src = ["from ptera import tag", "FUNS = []", "class Boom(Exception):\n    pass", "",
+               "def hgen0():\n    i = 0\n    while True:\n        i = i + 1\n        yield i", "",
+               "GEN = None", "",
+               "def _adv():\n    global GEN\n    if GEN is None:\n        GEN = hgen0()\n    next(GEN)", ""]
         for i in range(k):
             mine = rng.sample(VARS, rng.randrange(2, 4))
             ret_tags = rng.choice([None, None, ["T"], ["U"], ["T", "U"]])
@@ -25,8 +28,12 @@ class Family:
                 r = rng.random()
                 if r < 0.5:
                     slots.append(("bind", rng.choice(mine), rng.choice(TAGSETS)))
-                elif r < 0.92:
+                elif r < 0.89:
                     slots.append(("call",))
+                elif r < 0.93:
+                    # a suspended instrumented generator (started outside of everything) is advanced one step:
+                    # invisible to every selector, and it must leave the handler context as it found it
+                    slots.append(("gen",))
                 else:
                     slots.append(("raise",))
             # make sure every variable is bound somewhere and there are calls
@@ -44,6 +51,8 @@ class Family:
                     src.append("    if s[%d] is not None:\n        %s%s = s[%d]" % (j, sl[1], a, j))
                 elif sl[0] == "call":
                     src.append("    if s[%d] is not None:\n        FUNS[s[%d][0]](s[%d][1])" % (j, j, j))
+                elif sl[0] == "gen":
+                    src.append("    if s[%d] is not None:\n        _adv()" % j)
                 else:
                     src.append("    if s[%d] is not None:\n        raise Boom()" % j)
             src.append("    return s[%d]" % len(slots))
@@ -58,6 +67,8 @@ class Family:
         import ptera
         for f in self.funs:
             ptera.tooled.inplace(f)
+        ptera.tooled.inplace(self.mod.hgen0)
+        self.mod._adv()          # first step outside of every overlay and activation
 
     def infos(self):
         """FnInfo per function in the model's JSON shape, from __ptera_info__"""
@@ -79,6 +90,8 @@ class Family:
                 continue
             if sl[0] == "bind":
                 vals.append(rng.randrange(0, 6) if rng.random() < 0.75 else None)
+            elif sl[0] == "gen":
+                vals.append(1 if rng.random() < 0.6 else None)
             elif sl[0] == "call":
                 if budget[0] > 0 and rng.random() < 0.6:
                     budget[0] -= 1
@@ -111,6 +124,8 @@ class Family:
                 if r:
                     raised = True
                     break
+            elif sl[0] == "gen":
+                continue
             else:
                 raised = True
                 break
@@ -270,6 +285,8 @@ def _activation(fam, fi, script):
             node["binds"].append((j, sl[1]))
         elif sl[0] == "call":
             node["calls"].append((j, _activation(fam, val[0], val[1])))
+        elif sl[0] == "gen":
+            continue
         else:
             break
     return node
